@@ -33,6 +33,11 @@ for path in sorted(glob.glob(os.path.join(VERIF, "harness", "*", "check.json")))
             META[cid] = cfg.pop("meta")
         CHECKS[cid] = cfg
 
+# only checks the lead has reviewed and accepted are published in MANIFEST.json
+_acc = os.path.join(VERIF, "integrated.txt")
+ACCEPTED = set(open(_acc).read().split()) if os.path.exists(_acc) else set()
+META = {k: v for k, v in META.items() if k in ACCEPTED}
+
 ENGINES = json.load(open(os.path.join(VERIF, "engine", "engines.json")))
 for e in ENGINES:
     e["serves_properties"] = sorted(c for c in META if META[c].get("engine") == e["name"] or e["name"] in META[c].get("engines", []))
